@@ -421,6 +421,8 @@ func (e *Exec) callRtypeMethod(m *rtypeMethod, args []Value) Value {
 			return n.Obj().Pkg().Path()
 		}
 		return ""
+	case "Comparable":
+		return cBool(types.Comparable(m.rt.T))
 	case "ConvertibleTo":
 		other := args[0].(Iface).V.(*RType).T
 		return cBool(types.ConvertibleTo(m.rt.T, other))
